@@ -162,8 +162,9 @@ def all_data(S):
     return b"".join(d for _, d in S.units)
 
 # ------------------------------------------------------------------ the driver (spec/FormatDriver.tla)
-def make_coder(api, flags, memlimit=MEMLIMIT):
-    c = lz.Coder()
+def make_coder(api, flags, memlimit=MEMLIMIT, coder=None):
+    """coder given: call the initialisation function again on that handle (no lzma_end in between)"""
+    c = coder if coder is not None else lz.Coder()
     fl = 0
     for f in flags:
         fl |= FLAGBITS[f]
@@ -187,11 +188,11 @@ def make_coder(api, flags, memlimit=MEMLIMIT):
 
 CONT = (lz.OK, lz.NO_CHECK, lz.UNSUPPORTED_CHECK, lz.GET_CHECK)
 
-def drive(api, flags, data, pieces, mode, out_cap=None, max_calls=100000):
+def drive(api, flags, data, pieces, mode, out_cap=None, max_calls=100000, coder=None):
     """pieces: sizes of the pieces of new input (the rest is offered when the list is exhausted).
     mode 'finish': LZMA_FINISH together with the last piece; 'rtf': LZMA_RUN until everything is consumed.
     -> dict(rets=[names of non-OK], out, total_in, calls, ok (accounting + guards))"""
-    c, r = make_coder(api, flags)
+    c, r = make_coder(api, flags, coder=coder)
     if r != lz.OK:
         return dict(rets=["INIT_" + lz.retname(r)], out=b"", total_in=0, calls=0, ok=True)
     s = c.strm
@@ -228,5 +229,6 @@ def drive(api, flags, data, pieces, mode, out_cap=None, max_calls=100000):
     if not (ib.guards_ok() and ob.guards_ok()) or ib.data() != data:
         ok = False
     out = ob.data(op)
-    c.end()
+    if coder is None:
+        c.end()
     return dict(rets=rets, out=out, total_in=tin, calls=calls, ok=ok)
